@@ -239,6 +239,16 @@ impl Ctx {
             Err(e) => Err(Verdict::Violation { sig: "no-quiescence".into(), detail: format!("the server never became quiescent: {}", e) }),
         }
     }
+    /// Runs until every task whose label starts with `label_prefix` has finished (or nothing is runnable) - NOT until
+    /// quiescence: whatever those tasks left for others to do is still pending afterwards.
+    pub async fn run_until_done(&self, label_prefix: &str) -> Result<(), Verdict> {
+        let lp = label_prefix.to_string();
+        let stop = move |s: &Shared| s.tasks.iter().filter(|t| t.label.starts_with(&lp)).all(|t| t.done);
+        match run_until(&self.sh, self.max_steps, &stop).await {
+            Ok(_) => Ok(()),
+            Err(e) => Err(Verdict::Violation { sig: "no-quiescence".into(), detail: format!("the server never became quiescent: {}", e) }),
+        }
+    }
     /// Runs `fut` as a client task to completion under the default schedule (choices frozen).
     pub async fn settle<T: Send + 'static>(&self, label: &str, fut: impl Future<Output = T> + Send + 'static) -> Result<T, Verdict> {
         let was = self.freeze(true);
